@@ -40,6 +40,25 @@ BAN_ASREF = re.compile(r"^<<S as kmer::sealed::KmerStorage>::BaN as std::convert
 BA_ASREF = re.compile(r"^bitvec::array::traits::<impl std::convert::As(Ref|Mut)<bitvec::slice::BitSlice(<[^>]*>)?> for bitvec::array::BitArray<[^>]*>>::as_(ref|mut)$|^<bitvec::array::BitArray<.*> as std::convert::As(Ref|Mut)<bitvec::slice::BitSlice>>::as_(ref|mut)$")
 
 
+CONV_INTO = re.compile(r"^<(.+) as std::convert::Into<(.+)>>::into$")
+CONV_FROM = re.compile(r"^<(.+) as std::convert::From<(.+)>>::from$")
+CONV_IMPL = re.compile(r"^(?:[a-z_]+::)*<impl std::convert::From<(.+)> for (.+)>::from$")
+
+
+def conv_key(key):
+    """one spelling for a conversion: x.into(), U::from(x) and the resolved impl path all denote From<src> for dst"""
+    m = CONV_INTO.match(key)
+    if m:
+        return m.group(1), m.group(2)
+    m = CONV_FROM.match(key)
+    if m:
+        return m.group(2), m.group(1)
+    m = CONV_IMPL.match(key)
+    if m:
+        return m.group(1), m.group(2)
+    return None
+
+
 def is_bits_field(t):
     return t[0] == "field" and t[3] in ("bs", "bv") and len(t) > 4 and t[4] is not None and (
         "BitSlice" in t[4] or "BitVec" in t[4])
@@ -208,6 +227,9 @@ class Norm:
                 if rb is not None:
                     lo, hi = rb
                     return ("sslice", x, canon(lo), canon(hi) if hi is not None else None)
+            ck = conv_key(key)
+            if ck is not None:
+                return ("call", "CONV<%s -> %s>" % ck, args, None)
             if VIEW_FNS.match(key):
                 x = args[0]
                 if re.match(r"^<&?seq::slice::SeqSlice<", key):
